@@ -104,6 +104,10 @@ var alphabet = []stmt{
 	{src: "inc := func(x) { return x + 1 }", declares: []string{"inc"}, tag: "closure"},
 	{src: "add := func(x) { return x + 1 }", declares: []string{"add"}, tag: "closure"},
 	{src: "inc == add"},
+	// a try statement without finally, and a loop whose break/continue has to run finally blocks: the compiler counts
+	// the try statements around a jump
+	{src: "try { throw \"e\" } catch err { println(\"caught\") }", tag: "try"},
+	{src: "for i := 0; i < 2; i++ { try { if i == 0 { continue }; break } finally { println(\"finally\", i) } }", tag: "try"},
 }
 
 func moduleMap() *ugo.ModuleMap {
